@@ -792,6 +792,47 @@ Proof.
   rewrite G. reflexivity.
 Qed.
 
+
+(* ------------------------------------------------------------------ *)
+(* decrypt_json: all recipients are looked up before any decryption    *)
+(* ------------------------------------------------------------------ *)
+Lemma jwe_select_consume tbl ch sch kf g ks :
+  resolve kf g = KSSet ks ->
+  jwe_select tbl ch sch false kf None g =
+  match get_by_kid ks (hget (headers g) s_kid) with Ok k => Ok (k, None, g) | Err e => Err e end.
+Proof.
+  intro R. unfold jwe_select. simpl. rewrite (guess_consume tbl ch kf g ks R).
+  destruct (get_by_kid ks (hget (headers g) s_kid)); reflexivity.
+Qed.
+
+Theorem jwe_attach_unknown_kid tbl ch sch kf ks gs :
+  (forall g, In g gs -> resolve kf g = KSSet ks) ->
+  (exists g, In g gs /\ forall k, get_by_kid ks (hget (headers g) s_kid) <> Ok k) ->
+  jwe_attach tbl ch sch kf None gs = Err (EJose InvalidKeyIdError).
+Proof.
+  unfold jwe_attach. induction gs as [|g0 gs IH]; intros R (g & I & U); [contradiction|].
+  simpl. rewrite (jwe_select_consume tbl ch sch kf g0 ks (R g0 (or_introl eq_refl))).
+  destruct (get_by_kid ks (hget (headers g0) s_kid)) as [k0|e] eqn:G.
+  - simpl. destruct I as [E|I].
+    + subst g0. exfalso. exact (U k0 G).
+    + rewrite IH; [reflexivity | intros g1 I1; apply R; right; exact I1 | exists g; auto].
+  - simpl. apply lookup_err in G. destruct G as [G _]. subst e. reflexivity.
+Qed.
+
+Theorem jwe_attach_ok tbl ch sch kf ks gs l :
+  (forall g, In g gs -> resolve kf g = KSSet ks) ->
+  jwe_attach tbl ch sch kf None gs = Ok l ->
+  Forall2 (fun g r => r = (fst (fst r), None, g) /\
+                      get_by_kid ks (hget (headers g) s_kid) = Ok (fst (fst r))) gs l.
+Proof.
+  unfold jwe_attach. revert l. induction gs as [|g0 gs IH]; simpl; intros l R E.
+  - inversion E. constructor.
+  - rewrite (jwe_select_consume tbl ch sch kf g0 ks (R g0 (or_introl eq_refl))) in E.
+    destruct (get_by_kid ks (hget (headers g0) s_kid)) as [k0|e] eqn:G; simpl in E; [|discriminate].
+    destruct (map_res (jwe_select tbl ch sch false kf None) gs) as [r|] eqn:M; simpl in E; [|discriminate].
+    inversion E. constructor; [simpl; auto|]. apply IH; auto.
+Qed.
+
 (* ------------------------------------------------------------------ *)
 (* sender key                                                          *)
 (* ------------------------------------------------------------------ *)
